@@ -443,9 +443,48 @@ var regTypes = func() map[int]bool {
 // RecalculateHeaders, Inject at off, GetEntries: same headers in order, same data,
 // pointer designates the table, first entry = magic + count, nothing else modified.
 func pRoundTrip(a []string) string {
-	orig := UnH(a[0])
-	off := UnN(a[1])
 	es, _ := argsEntries(a[2:])
+	return roundTrip(UnH(a[0]), UnN(a[1]), es)
+}
+
+// p_big: the same oracle on an image of several MiB with one data segment of 64 KiB
+// and more (Size field >= 0x10000 for the x16 kinds), built here from small
+// arguments: seed, image size, kind of the big entry, its Size field value, placement.
+func pBig(a []string) string {
+	r := NewRng(UnN(a[0]))
+	size, k, units, mode := UnN(a[1]), int(UnN(a[2])), UnN(a[3]), UnN(a[4])
+	dataLen := units * 16
+	if k == 9 || k == 11 || k == 12 {
+		dataLen = units
+	}
+	if units >= 1<<24 || size < dataLen+0x1000 || size > 64<<20 {
+		return "skip"
+	}
+	img := r.Bytes(int(size))
+	var dataOff, tableOff uint64
+	switch mode % 3 {
+	case 0: // data at the start of the image, the table right behind it
+		dataOff, tableOff = 0, dataLen
+	case 1: // data directly below the FIT pointer, the table near the start
+		dataOff, tableOff = size-fitconsts.FITPointerOffset-dataLen, 0x100
+	default:
+		dataOff, tableOff = 0x800+uint64(r.Intn(256)), 16
+	}
+	big := newOfKind(k)
+	bb := big.GetEntryBase()
+	bb.Headers = randHdr(r)
+	if k == kUnknown {
+		bb.Headers.TypeAndIsChecksumValid = fit.TypeAndIsChecksumValid(0x55)
+	}
+	bb.Headers.Address.SetOffset(dataOff, size)
+	bb.DataSegmentBytes = r.Bytes(int(dataLen))
+	small := newOfKind(127)
+	small.GetEntryBase().Headers = randHdr(r)
+	es := fit.Entries{newOfKind(0), big, small}
+	return roundTrip(img, tableOff, es)
+}
+
+func roundTrip(orig []byte, off uint64, es fit.Entries) string {
 	if len(es) == 0 || kindOf(es[0]) != 0 || len(es) >= 1<<24 {
 		return "skip"
 	}
@@ -839,6 +878,32 @@ func gen(r *Rng, tier string, emit Emit) {
 			emit("C", "settype", N(uint64(tc)), N(uint64(t)))
 		}
 	}
+	// ---- data segments of 64 KiB .. 16 MiB (24-bit Size field beyond 16 bits), built in the worker ----
+	rb := r.Fork(3)
+	bigCases := [][4]uint64{ // image size, kind, Size field, placement
+		{2<<20 + 0x2000, 127, 0x10000, 0},
+		{3 << 20, 1, 0x10002, 1},
+		{4 << 20, kUnknown, 0x2FFFF, 2},
+		{4 << 20, 7, 0x20000, 1},
+		{2 << 20, 11, 0x10001, 0},
+		{2 << 20, 12, 0xFFFFF, 2},
+		{17 << 20, 16, 0xFFFFF, 0},
+	}
+	if tier == "thorough" {
+		for i := 0; i < 40; i++ {
+			k := []int{1, 7, 16, 45, 47, 127, kUnknown, 9, 11, 12}[rb.Intn(10)]
+			units := uint64(rb.Pick(0x10000, 0x10001, 0xFFFF, 0x1FFFF, 0x20000, 0x30001, 0x10000+rb.Intn(0x30000)))
+			n := units * 16
+			if k == 9 || k == 11 || k == 12 {
+				units = uint64(rb.Pick(0xFFFF, 0x10000, 0x10001, 0xFFFFFF, 0x100000+rb.Intn(0x300000)))
+				n = units
+			}
+			bigCases = append(bigCases, [4]uint64{n + 0x1000 + uint64(rb.Intn(1<<20)), uint64(k), units, uint64(rb.Intn(3))})
+		}
+	}
+	for _, c := range bigCases {
+		emit("P", "p_big", N(rb.U64()>>1), N(c[0]), N(c[1]), N(c[2]), N(c[3]))
+	}
 	// ---- recalculate, inject, read back ----
 	for it := 0; it < n; it++ {
 		rr := r.Fork(uint64(1000 + it))
@@ -989,5 +1054,6 @@ func main() {
 	Register("p_hdr_json", pHdrJSON)
 	Register("p_roundtrip", pRoundTrip)
 	Register("p_reinject", pReinject)
+	Register("p_big", pBig)
 	Main(gen)
 }
